@@ -251,5 +251,17 @@ def replay(run, path):
             if hx not in ("-", "~"):
                 print(ph, nm, len(hx) // 2, "bytes:", hx[:120])
     print("expected:", json.dumps(rep.get("expected"))[:400])
+    # verdict: the records at exec entry of that call against the prediction stored with the violation
+    got = {}
+    for (nm, hx) in c.get("sinks", {}).get("at-exec", []):
+        if hx not in ("-", "~"):
+            got.setdefault(nm, []).append(hx)
+    for nm in ("out", "out2", "so", "se", "tty"):
+        if nm in got:
+            got[nm] = ["".join(got[nm])]
+    exp = rep.get("expected") or {}
+    late = [(nm, hx) for ph in ("after", "after-flush") for (nm, hx) in c.get("sinks", {}).get(ph, []) if hx not in ("-", "~")] if not rep.get("last_call") else []
+    same = (set(got) == set(exp) and all([x[:200] for x in got[k]] == exp[k] for k in exp)) and not late and r["status"] == 0
+    print("not reproduced: the records match the prediction" if same else "REPRODUCED")
     run.cleanup()
-    return 0
+    return 0 if same else 1
